@@ -1,6 +1,7 @@
 """C20 -- file and rule filters select exactly the matching files.
 
-G: TLC enumerates MC_Filters (trees of Lua files x apply/skip pattern lists -- absent, one string, arrays -- at the top
+G: tlapm proves the four design theorems in spec/darklua/FiltersCore.tla for any matching relation, any number of rules and
+   any pattern lists (unbounded); TLC enumerates MC_Filters (trees of Lua files x apply/skip pattern lists -- absent, one string, arrays -- at the top
    level and on each rule of a three-rule pipeline) and model-checks RuleFilterIsDeletion / FilterIsLocal /
    RootExcludedUntouched on the abstract pipeline of spec/darklua/Filters.tla; every case is emitted for replay.
 R: dlv filters runs the real darklua_core::process (in-memory project, output directory) under the configuration of the
@@ -93,6 +94,8 @@ def run(tier):
     if g.invariant_violated:
         raise vlib.ToolError("MC_Filters: theorem %s fails on the model" % g.invariant_violated)
     tlc_ok(g, "MC_Filters")
+    # the same theorems for ANY matching relation and any number of rules: TLAPS proofs of FiltersCore.tla
+    proved = vlib.tlapm("darklua/FiltersCore", expect_min=25)
     cases = g.tagged("CASE")
     floor = 5000 if tier == "quick" else 40000
     if len(cases) < floor:
@@ -134,7 +137,8 @@ def run(tier):
         "pattern_lists": len(pool), "trees": [[f["s"] for f in t] for t in trees],
         "patterns": sorted(set(p["s"] for l in pool for p in l["pats"])),
         "real_process_runs": stats["observations"] * 4 + 8 * len(trees),
-        "checker_cmd": "tlc MC_Filters (enumerate + theorems); dlv filters; tlc FiltersTrace (judge)",
+        "checker_cmd": "tlapm FiltersCore (unbounded proofs); tlc MC_Filters (enumerate + theorems); dlv filters; tlc FiltersTrace (judge)",
+        "tlaps_obligations_proved": proved,
     })
     rep.coverage.update(stats)
     rep.assumptions += [
